@@ -421,6 +421,14 @@ def run(ctx):
     from .c15 import check_descriptor_equality
     check_descriptor_equality(ctx, "R18.8")
 
+    # ------------------------------------------------------------------ R18.9 column names that are valid field names come back unchanged
+    ctx.rule("R18.9", "normalize_fieldname (applied by the reader to every column name) does not treat Python keywords specially: `from`, `class`, `pass` are valid field names, "
+                      "are written as they are, and must be read back as they are")
+    nf9 = ctx.anchor_func("flow.record.base.normalize_fieldname")
+    kw9 = [n for n in ast.walk(nf9) if (isinstance(n, ast.Attribute) and dotted(n) and dotted(n).startswith("keyword.")) or (isinstance(n, ast.Name) and n.id in ("iskeyword", "kwlist"))]
+    ctx.check(not kw9, "R18.9", "normalize_fieldname:keywords", f"normalize_fieldname consults `{norm(kw9[0]) if kw9 else ''}`: a field named like a Python keyword is renamed on the way back", kw9[0] if kw9 else nf9,
+              "keywords pass unchanged", key="R18.9:normalize_fieldname:keyword-renamed")
+
 
 
 def _is_type_slot(prog, sq, fn, v, la) -> bool:
